@@ -276,6 +276,7 @@ func c04(c *Ctx) {
 	if nh < 2 {
 		c.undecided(r6, "floor", "History implementations not found")
 	}
+	c04PrefixLookupContinues(c, "C04.4/filtered-first-match-continues")
 	c04ScanBounds(c, "C04.7/clamped-scan-bound-is-inclusive")
 	c04NodeRefMirrors(c, "C04.8/node-reference-mirrors-child")
 	r := "C04.5/read-pipeline"
@@ -497,5 +498,107 @@ func c04NodeRefMirrors(c *Ctx, r string) {
 	}
 	if n < 4 {
 		c.undecided(r, "floor", fmt.Sprintf("%d reference fields filled from node accessors found (4 in innerNode.writeTo confirmed by hand)", n))
+	}
+}
+
+// c04PrefixLookupContinues: a prefix lookup returns the first live key having the prefix. The index lookup hands back
+// the first key having it, live or not; when a filter (deleted, expired) rejects that entry the lookup is not over:
+// from the rejecting edge of every filter call, no return is reached without a scan of the following keys
+// (a call that reaches tbtree.(*Snapshot).NewReader). Answering not-found there hides live keys (and lets the SQL
+// layer, which checks UNIQUE indexes with this lookup, admit duplicates).
+func c04PrefixLookupContinues(c *Ctx, r string) {
+	var reachesReader func(f *ssa.Function, depth int) bool
+	reachesReader = func(f *ssa.Function, depth int) bool {
+		if f == nil || depth > 3 {
+			return false
+		}
+		found := false
+		allInstrs(f, false, func(in ssa.Instruction) {
+			cc := callOf(in)
+			if cc == nil || found {
+				return
+			}
+			if _, isDefer := in.(*ssa.Defer); isDefer {
+				return
+			}
+			n := calleeName(cc)
+			if n == "embedded/tbtree.(*Snapshot).NewReader" {
+				found = true
+				return
+			}
+			if sc := cc.StaticCallee(); sc != nil && fnInPkgs(sc, []string{"embedded/store"}) && reachesReader(sc, depth+1) {
+				found = true
+			}
+		})
+		return found
+	}
+	isFilterCall := func(in ssa.Instruction) bool {
+		call, ok := in.(*ssa.Call)
+		if !ok || call.Call.IsInvoke() || call.Call.StaticCallee() != nil {
+			return false
+		}
+		nt, ok := call.Call.Value.Type().(*types.Named)
+		return ok && nt.Obj().Name() == "FilterFn"
+	}
+	continues := func(in ssa.Instruction) bool {
+		cc := callOf(in)
+		if cc == nil {
+			return false
+		}
+		if _, isDefer := in.(*ssa.Defer); isDefer {
+			return false
+		}
+		if calleeName(cc) == "embedded/tbtree.(*Snapshot).NewReader" {
+			return true
+		}
+		sc := cc.StaticCallee()
+		return sc != nil && fnInPkgs(sc, []string{"embedded/store"}) && !strings.HasSuffix(sc.Name(), "syncSnapshot") && reachesReader(sc, 0)
+	}
+	n := 0
+	for _, name := range []string{storeT + "GetWithPrefixAndFilters", "embedded/store.(*Snapshot).GetWithPrefixAndFilters"} {
+		f := c.mustFn(r, name)
+		if f == nil {
+			continue
+		}
+		fc := sites(f, isFilterCall)
+		if len(fc) == 0 {
+			c.undecided(r, name, "no call of a FilterFn found")
+			continue
+		}
+		for i, in := range fc {
+			n++
+			// the edge on which the filter rejected the entry
+			in := in
+			edges := errEdges(f, func(x ssa.Instruction) bool { return x == in })
+			construct := fmt.Sprintf("%s:filter#%d", fnName(f), i)
+			if len(edges) == 0 {
+				c.undecided(r, construct, "the branch on the filter's verdict was not recognised")
+				continue
+			}
+			// acquiring the snapshot to scan may fail: that failure is returned as it is
+			scanCalls := sites(f, continues)
+			via := func(x ssa.Instruction) bool {
+				if continues(x) {
+					return true
+				}
+				if cc := callOf(x); cc != nil && strings.HasSuffix(calleeName(cc), ").syncSnapshot") {
+					for _, sc := range scanCalls {
+						if instrDominates(x, sc) {
+							return true
+						}
+					}
+				}
+				return false
+			}
+			q := &pathQ{fn: f, fromEdges: edges, to: isReturn, via: via}
+			if w := q.bypass(); w != nil {
+				c.fail(r, construct, c.pos(w[len(w)-1].Pos()), "the lookup returns as soon as a filter rejects the first key having the prefix, live keys that follow are not looked at: "+c.witnessStr(w))
+			} else {
+				c.ok(r, construct, c.pos(in.Pos()), "a rejected first match is followed by a scan of the next keys having the prefix")
+			}
+		}
+	}
+	if n < 2 {
+		c.undecided(r, "floor", fmt.Sprintf("%d filter applications found in the prefix lookups (store and snapshot confirmed by hand)", n))
 	}
 }
